@@ -1,11 +1,6 @@
-// U-PSPAN prelude (trusted text; ASSUMED, not proved): the parser functions outside the unit that the functions under contract call.
-// Their RESULTS are unconstrained; assumed is what the uniform contract of spec/u_pspan_spec.rs says of every parse function:
-// they take at least one token off a well-formed cursor on success, leave the cursor well formed, and locate their errors inside
-// the lexed text.  (parse_wellformed_type: the type layer; its callers locate the type themselves with location_of_span.)
-#[verifier::external_body]
-pub fn parse_wellformed_type(tokens: &mut Tokens) -> (r: Result<ValueType, Error>)
-	requires stream_wf(*old(tokens)),
-	ensures stream_wf(*final(tokens)),
-		r is Ok ==> took(*old(tokens), *final(tokens), 1),
-		r is Err ==> err_at(*old(tokens), r->Err_0),
-{ unimplemented!() }
+// U-PSPAN prelude (trusted text): ValueType::is_wellformed (src/alpha/value_type.rs, under contract in U-VT) is called by
+// parse_wellformed_type; the span bookkeeping does not depend on its result, which is left UNCONSTRAINED here (opaque stand-in).
+impl<I: value_type::Identifier> value_type::ValueType<I> {
+	#[verifier::external_body]
+	pub fn is_wellformed(&self) -> bool { unimplemented!() }
+}
